@@ -241,7 +241,16 @@ def cases(tier, seed):
     for s in aw:
         for _ in range(3):
             out.append(roundtrip_case(rnd, s, now, "full"))
-        out.append(roundtrip_case(rnd, s, [rnd.randrange(1000, 9999), rnd.randrange(1, 13), rnd.randrange(1, 29)], rnd.choice(["date", "time", "md", "y", "ym", "dhm", "full12", "fullz", "doy", "yy"])))
+        out.append(roundtrip_case(rnd, s, [rnd.randrange(1000, 9999), rnd.randrange(1, 13), rnd.randrange(1, 29)], rnd.choice(["date", "time", "md", "y", "ym", "dhm", "full12", "fullz", "doy", "yy", "frac", "frac"])))
+    # deterministic witnesses of the listed findings (so that they are re-confirmed on every run)
+    w = mk_dt("fixed", 19800, 2020, 2, 29, 13, 14, 15, 123456)
+    w2 = mk_dt("fixed", -3600, 2021, 1, 31, 1, 2, 3, 4)
+    iso_tail = [["lit", " "], ["tok", "HH"], ["lit", ":"], ["tok", "mm"], ["lit", ":"], ["tok", "ss"], ["lit", "."], ["tok", "SSSSSS"], ["lit", " "], ["tok", "Z"]]
+    for x in (w, w2):
+        out.append({"stream": "roundtrip-full", "fn": "roundtrip", "args": ["en", x, [["tok", "YYYY"], ["lit", "-"], ["tok", "DDDD"]] + iso_tail, now, "doy"]})
+        out.append({"stream": "roundtrip-full", "fn": "roundtrip", "args": ["en", x, [["tok", "YYYY"], ["lit", "-"], ["tok", "MM"], ["lit", "-"], ["tok", "DD"], ["br", "at"]] + iso_tail[1:], now, "full"]})
+        out.append({"stream": "roundtrip-full", "fn": "roundtrip", "args": ["en", x, [["tok", "YYYY"], ["lit", "-"], ["tok", "MM"], ["lit", "-"], ["tok", "DD"], ["esc", "T"]] + iso_tail[1:], now, "full"]})
+        out.append({"stream": "roundtrip-full", "fn": "roundtrip", "args": ["en", x, [["tok", "YYYY"], ["lit", "-"], ["tok", "MM"], ["lit", "-"], ["tok", "DD"]] + iso_tail, now, "full"]})
     # localized month / day names in every locale
     for loc in LOCALES:
         for m in range(1, 13):
@@ -297,6 +306,8 @@ def roundtrip_case(rnd, s, now, shape):
         parts = date + lit(mid) + time + frac + lit(rnd.choice([" ", "", " ", "_"])) + [["tok", Z]]
         if rnd.random() < 0.3:
             parts = [["tok", Z], ["lit", " "]] + time + frac + lit(" ") + date
+    elif shape == "frac":
+        parts = date + [["lit", " "]] + time + [["lit", "."], ["tok", "S" * rnd.randrange(1, 7)], ["lit", " "], ["tok", Z]]
     elif shape == "fullz":
         parts = date + lit(mid) + time + frac + [["lit", " "], ["tok", "z"]]
     elif shape == "full12":
@@ -319,7 +330,7 @@ def roundtrip_case(rnd, s, now, shape):
         parts = [["tok", "D"], ["lit", " "], ["tok", "H"], ["lit", ":"], ["tok", "m"]]
     else:
         raise ValueError(shape)
-    return {"stream": "roundtrip-full" if shape in ("full", "fullz", "full12", "doy") else "fill-now", "fn": "roundtrip", "args": ["en", s, parts, list(now), shape]}
+    return {"stream": "roundtrip-full" if shape in ("full", "fullz", "full12", "doy", "frac") else "fill-now", "fn": "roundtrip", "args": ["en", s, parts, list(now), shape]}
 
 
 def search_cases(seed):
@@ -656,7 +667,10 @@ def expected_roundtrip(s, parts, now, loc):
     eH = H if any(t in toks for t in ("HH", "H")) or (any(t in toks for t in ("hh", "h")) and "A" in toks) else 0
     eM = M if any(t in toks for t in ("mm", "m")) else 0
     eS = S if any(t in toks for t in ("ss", "s")) else 0
-    eus = us if "SSSSSS" in toks else 0
+    eus = 0
+    for k in range(1, 7):
+        if "S" * k in toks:
+            eus = us // 10 ** (6 - k) * 10 ** (6 - k)
     if any(t in toks for t in ("Z", "ZZ")):
         tz = [1, s["off"]]
     elif "z" in toks:
